@@ -43,3 +43,39 @@ def declare(reg):
     b = reg.properties.setdefault("C15", {}).setdefault("bounded", [])
     b.append({"name": "_match_message_set-vs-denote", "module": "harness.seqset", "func": "MatchMessageSet"})
     b.append({"name": "_match_uid-vs-denote", "module": "harness.seqset", "func": "MatchUid"})
+
+    # ---- C14: evaluator kernel ---------------------------------------------------------------
+    # does message (mailbox m, MH key k, sequence number n) satisfy search program s?  (uninterpreted: defined by the RFC;
+    # each _match_* contract below pins down one equation of it)
+    reg.specfn("sat", "s: ref:IMAPSearch, m: ref:Mailbox, k: int, n: int, seq_max: int, uid_max: int", "bool")
+    CTX = "self.ctx.mailbox, self.ctx.msg_key, self.ctx.msg_number, self.ctx.seq_max, self.ctx.uid_max"
+    reg.contract(P, "IMAPSearch.match", params={"self": "ref:IMAPSearch", "ctx": "ref:SearchContext"}, ret="bool",
+                 ensures={"sat": "result == sat(self, ctx.mailbox, ctx.msg_key, ctx.msg_number, ctx.seq_max, ctx.uid_max)", "ctx-set": "self.ctx == ctx",
+                          "uid-cache-coherent": "is_none(ctx._uid) or ctx._uid == uid_of_key(ctx.mailbox, ctx.msg_key)"},
+                 modifies=["self.ctx", "SearchContext._uid", "SearchContext._uid_vv", "SearchContext._msg_size", "SearchContext._sequences"],
+                 trusted=True, yields=True,
+                 note="dynamic dispatch getattr(self, f'_match_{op}') is outside the subset: assumed to evaluate the program `sat`; the _match_* equations are proved separately")
+    reg.contract(
+        P, "IMAPSearch._match_not", params={"self": "ref:IMAPSearch"}, ret="bool",
+        ensures={"complement": f"result == (not sat(self.args['search_key'], {CTX}))"},
+        modifies=["IMAPSearch.ctx", "SearchContext._uid", "SearchContext._uid_vv", "SearchContext._msg_size", "SearchContext._sequences"],
+        props=["C14"],
+    )
+    reg.contract(P, "IMAPSearch._match_all", params={"self": "ref:IMAPSearch"}, ret="bool", ensures={"all": "result == True"}, props=["C14"])
+    reg.specfn("size_of", "m: ref:Mailbox, k: int", "int", "len(rendered(msg_of(m, k), True))", doc="RFC822.SIZE: octets of the rendering of the message stored under key k")
+    reg.contract(P, "SearchContext.msg_size", params={"self": "ref:SearchContext"}, ret="int",
+                 requires={"cache-coherent": "is_none(self._msg_size) or self._msg_size == size_of(self.mailbox, self.msg_key)"},
+                 ensures={"size": "result == size_of(self.mailbox, self.msg_key)",
+                          "cache-coherent": "is_none(self._msg_size) or self._msg_size == size_of(self.mailbox, self.msg_key)"},
+                 modifies=["self._msg_size", "self._msg"], props=["C14", "C16"])
+    reg.contract(P, "SearchContext.msg", params={"self": "ref:SearchContext"}, ret="opaque:EmailMessage",
+                 ensures={"is": "result == msg_of(self.mailbox, self.msg_key)"}, modifies=["self._msg"], trusted=True, note="cached Mailbox.get_msg")
+    for fn, op in (("_match_larger", ">"), ("_match_smaller", "<")):
+        reg.contract(
+            P, "IMAPSearch." + fn, params={"self": "ref:IMAPSearch"}, ret="bool",
+            requires={"cache-coherent": "is_none(self.ctx._msg_size) or self.ctx._msg_size == size_of(self.ctx.mailbox, self.ctx.msg_key)"},
+            ensures={"size-key": f"result == (size_of(self.ctx.mailbox, self.ctx.msg_key) {op} self.args['n'])"},
+            modifies=["SearchContext._msg_size", "SearchContext._msg"], props=["C14"],
+        )
+    reg.properties.setdefault("C14", {}).setdefault("bounded", []).append(
+        {"name": "search-vs-reference", "module": "harness.e2e", "func": "SearchExact"})
